@@ -68,11 +68,22 @@ Inductive action :=
            instance carried by exc_info *)
 | AWrite (data : bytes)                     (* the write callable *)
 | ARaise (e : exn)
-| AMutate (i : nat) (is_value : bool) (v : str).
+| AMutate (i : nat) (is_value : bool) (v : str)
         (* the application passed its header pairs as mutable LISTS and assigns to
            element 0/1 of the i-th pair after start_response returned: no effect,
            start_response stored fresh tuples (before commit 2730de7 it kept
            references and the mutation reached the wire) *)
+| ATryStart (status : pyobj) (headers : list (pyobj * pyobj)) (exc : option exn).
+        (* try: start_response(status, headers[, exc_info])
+           except BaseException: pass
+           -- the application (or an error-handling wrapper around it) SWALLOWS a
+           refusal and carries on.  What the refused call leaves behind in the task
+           is whatever [start_response] had assigned up to its raise site:
+           complete = True (set before any validation), response_headers = [] when
+           exc_info was given and no output has begun, status once the status passed
+           its own checks, content_length from a Content-Length pair that precedes
+           the refused pair; response_headers is extended only by a call that
+           returns. *)
 
 Inductive step_result := SYield (b : bytes) | SRaise (e : exn).
 (* one __next__ of the iterable: WSGI-visible actions, then a value or an exception *)
@@ -499,6 +510,11 @@ Definition run_action (c : cfg) (r : req) (disc : option nat) (s : st) (a : acti
   | AWrite data => task_write c r disc s data
   | ARaise e => (s, Exn e)
   | AMutate i isv v => (s, Ok tt)   (* response_headers.extend([(k, v) for k, v in headers]) copied the pairs *)
+  | ATryStart status headers exc =>
+      (* the state start_response left behind at its raise site is kept, the exception is dropped *)
+      match start_response (fst s) status headers exc with
+      | (t, _) => ((t, snd s), Ok tt)
+      end
   end.
 
 Fixpoint run_actions (c : cfg) (r : req) (disc : option nat) (s : st) (l : list action) : st * outcome unit :=
